@@ -138,3 +138,12 @@ def narrowing(ctx):
               expected='a check that raises when an aggregated value does not fit the column dtype',
               reason='two int32 maxima merge to a stored 2147483647 (h5py saturates silently) while the sum attribute says 4294967294',
               key='C07.narrowing|write_pixels|unchecked-narrowing-store')
+
+
+_run_core = run
+
+
+def run(ctx):
+    _run_core(ctx)
+    from . import refs_misc
+    refs_misc.run_for(ctx, 'C07')
